@@ -574,7 +574,7 @@ def check_path(spec, inst, st, res, rng, tr, seeds, angle_pins, g):
                     res.queries -= 1
                     res.extra["decided_with_linear_literals_only"] = res.extra.get("decided_with_linear_literals_only", 0) + 1
             if r is None:
-                r, model, dt = run_z3(smt, names, rlimit=st.rlimit, seed=st.seed & 0xFFFF, timeout_ms=st.z3_timeout_ms)
+                r, model, dt = run_z3(smt, names, rlimit=st.rlimit, seed=st.seed & 0xFFFF, timeout_ms=inst.get("z3_timeout_ms", st.z3_timeout_ms))
             else:
                 res.queries -= 1
                 res.solver_time -= dt
@@ -693,6 +693,16 @@ def handle_sat(spec, inst, st, res, tr, enc, ob, model, seeds, angle_pins, free,
         else:
             res.violations.append(viol)
     else:
+        if DEBUG:
+            for i, (d1, d2) in enumerate(zip(tr.decisions, tr2.decisions)):
+                if (d1[0], d1[1], d1[4], d1[6]) != (d2[0], d2[1], d2[4], d2[6]):
+                    try:
+                        pa, pb = enc.poly(d1[2]), (enc.poly(d1[3]) if d1[0] == 0 else {})
+                        log("   replay diverges at decision %d: %s vs %s | %s ? %s | model %s" % (i, d1[:6], d2[:6], enc.ring.text(pa, 6)[:160], enc.ring.text(pb, 6)[:160],
+                            {k: v for k, v in model.items() if k.startswith("x_")}))
+                    except Exception as e:
+                        log("   replay diverges at decision %d (%s)" % (i, e))
+                    break
         res.abstraction_cex.append(dict(instance=inst["name"], obligation=ob.name, base=g,
                                         reason="counter-model does not reproduce on the real code (abstraction too coarse)",
                                         hyps_ok=hy, goal_ok=go))
